@@ -9,6 +9,7 @@ import DropletsVerif.Driver.C18
 import DropletsVerif.Driver.C19
 import DropletsVerif.Driver.C14
 import DropletsVerif.Driver.C08
+import DropletsVerif.Driver.C20
 
 open DV.Drv
 
@@ -23,6 +24,7 @@ def dispatch (line : String) : String :=
   | "c19" :: args => handleC19 args
   | "c14" :: args => handleC14 args
   | "c08" :: args => handleC08 args
+  | "c20" :: args => handleC20 args
   | "c15" :: args => handleC15 args
   | _ => "bad-op"
 
